@@ -379,13 +379,12 @@ class Check:
 # per property: which substrates, how much
 def plan(prop, tier):
     if tier == 'quick':
-        p = [('native', 'runs', 2000000), ('nodebug', 'runs', 1000000)]
-        if prop == 'C05':
-            p += [('simd', 'runs', 500000)]
+        # every property: assertions on, assertions off, and the simd-accel implementation of the kernels
+        p = [('native', 'runs', 2000000), ('nodebug', 'runs', 1000000), ('simd', 'runs', 500000)]
         if prop == 'C06':
-            p += [('asan', 'runs', 150000), ('simd', 'runs', 300000)]
+            p += [('asan', 'runs', 150000)]
         if prop == 'C18':
-            p += [('simd', 'runs', 300000), ('miri', 'runs', 32)]
+            p += [('miri', 'runs', 32)]
         return p
     p = [('native', 'secs', 600), ('nodebug', 'secs', 120), ('simd', 'secs', 120)]
     if prop in ('C02', 'C04', 'C05', 'C06', 'C10', 'C18'):
